@@ -241,7 +241,7 @@ func cmdCheck(args []string) int {
 		}
 		l.pkg = pkg
 		for _, w := range ws {
-			w.useSolver(l.SolverKind)
+			w.useSolver(l.SolverKind, l.SolverTimeoutMs)
 			w.in.sol.record = *tier == "thorough" || *cross
 		}
 		l.explore(ws, entry)
